@@ -3,6 +3,8 @@ package props
 import (
 	"encoding/json"
 	"fmt"
+	"go/scanner"
+	"go/token"
 	"os"
 	"path/filepath"
 	"regexp"
@@ -99,7 +101,8 @@ func drawErrCase(rt *rapid.T) *errCase {
 	for k := 0; k < nf; k++ {
 		fi := rapid.IntRange(0, len(ws.Files)-1).Draw(rt, "faultfile")
 		f := &ws.Files[fi]
-		kind := pickT(rt, "fault", []string{"delete-token", "undefined-ident", "type-mismatch", "bad-import", "unresolved-import", "mixed-package", "empty-file", "truncate", "unused-var", "dup-decl", "missing-return", "bad-call-arity"})
+		kind := pickT(rt, "fault", []string{"delete-token", "undefined-ident", "type-mismatch", "bad-import", "unresolved-import", "mixed-package", "empty-file", "truncate", "unused-var", "dup-decl", "missing-return", "bad-call-arity",
+			"ill-typed-snippet", "ill-typed-snippet", "ill-typed-snippet", "drop-token", "drop-token"})
 		faults = append(faults, kind)
 		switch kind {
 		case "delete-token":
@@ -108,6 +111,18 @@ func drawErrCase(rt *rapid.T) *errCase {
 			if len(idxs) > 0 {
 				i := idxs[rapid.IntRange(0, len(idxs)-1).Draw(rt, "tok")]
 				f.Text = f.Text[:i] + f.Text[i+1:]
+			}
+		case "ill-typed-snippet":
+			// declarations that parse but do not type-check, in the shapes checkers index into
+			k := rapid.IntRange(0, len(illTypedSnippets)-1).Draw(rt, "snippet")
+			faults[len(faults)-1] = fmt.Sprintf("ill-typed-snippet#%d", k)
+			f.Text += "\n" + strings.ReplaceAll(illTypedSnippets[k], "§", fmt.Sprint(k)) + "\n"
+		case "drop-token":
+			// remove one identifier, literal or operator token (the file may or may not parse after it)
+			toks := tokenSpans(f.Text)
+			if len(toks) > 0 {
+				sp := toks[rapid.IntRange(0, len(toks)-1).Draw(rt, "droptok")]
+				f.Text = f.Text[:sp[0]] + f.Text[sp[1]:]
 			}
 		case "undefined-ident":
 			f.Text += "\nfunc vbroken1() int { return undefinedIdent + 1 }\n"
@@ -136,6 +151,52 @@ func drawErrCase(rt *rapid.T) *errCase {
 	ec.Fault = strings.Join(faults, "+")
 	ec.WS = ws
 	return ec
+}
+
+// illTypedSnippets parse, but go/types rejects them; the command still hands such files to checkers.
+var illTypedSnippets = []string{
+	"func vi§a() {\n\ta, b, c := 1, 2\n\t_, _, _ = a, b, c\n\tvar d, e, f = 1, 2\n\t_, _, _ = d, e, f\n\tconst g, h, i = 1, 2\n\t_, _, _ = g, h, i\n}",
+	"func vi§b() {\n\tvar j, k = 1, 2, 3\n\t_, _ = j, k\n\tl, m := vi§b3()\n\t_, _ = l, m\n\tvar n, o int = vi§b3()\n\t_, _ = n, o\n}\nfunc vi§b3() (int, int, int) { return 1, 2, 3 }",
+	"func vi§c(xs []int, m map[string]int) {\n\tfor a, b := range 5.5 {\n\t\t_, _ = a, b\n\t}\n\tfor a, b := range vi§c {\n\t\t_, _ = a, b\n\t}\n\tvar x int\n\tswitch y := x.(type) {\n\tcase int:\n\t\t_ = y\n\t}\n}",
+	"type vi§S struct{ a int }\n\nfunc vi§d() {\n\t_ = []int{1: 1, 1: 2}\n\t_ = map[string]int{\"a\": 1, \"a\": 2}\n\t_ = vi§S{1, 2}\n\t_ = vi§S{zz: 1}\n\t_ = [2]int{1, 2, 3}\n\t_ = &vi§S{a: \"s\"}.a\n}",
+	"func (x vi§Undefined) M() {}\nfunc (int) vi§M() {}\n\ntype vi§T struct{ vi§T }\ntype vi§I interface{ vi§I }\n\nfunc vi§e(t vi§T) { _ = t.vi§T.vi§T; _ = t.nosuch }",
+	"func vi§f() int { return 1, 2 }\nfunc vi§g() (int, int) { return 1 }\nfunc vi§h() { return 1 }\nfunc vi§i() (a, b int) {\n\tif true {\n\t\ta := 1\n\t\t_ = a\n\t\treturn\n\t}\n\treturn a\n}",
+	"func vi§j[T any](x T) T { var y T = 1; return y + x }\nfunc vi§k() { _ = vi§j[int, int](1); _ = vi§j(); var z vi§j; _ = z }",
+	"func vi§l() {\n\tgoto missing\nouter:\n\tfor {\n\t\tbreak inner\n\t}\nouter:\n\tfor {\n\t\tcontinue outer\n\t}\n}",
+	"const vi§m int8 = 1000\n\nfunc vi§n(x int) int {\n\t_ = 1 / 0\n\t_ = x << -1\n\t_ = \"a\" + 1\n\t_ = !x\n\t_ = -\"s\"\n\t_ = x == \"s\" || x == nil\n\tvar p *int = &x\n\t_ = p == 0 && *x > 0\n\treturn x.(int)\n}",
+	"func vi§o(xs []int, s string, m map[string]int) {\n\t_ = append(xs, \"a\")\n\t_ = append(s, 1)\n\t_ = len(1)\n\t_ = cap(m)\n\t_ = copy(xs)\n\t_ = make([]int)\n\t_ = make(int, 1)\n\t_ = new(1)\n\tdelete(xs, 1)\n\t_ = xs[\"a\"]\n\t_ = s[1:2:3]\n\t_ = m[1]\n\tclose(xs)\n\tpanic()\n}",
+	"func vi§p() {\n\tx := 1\n\tx := 2\n\tx, y = 3, 4\n\tx = x + y.z\n\tx += \"s\"\n\tx++\n\ty--\n\tvar f func()\n\tf = f()\n\tdefer f\n\tgo f()()\n}",
+	"func vi§q(a interface{}, e error) {\n\tswitch a.(type) {\n\tcase int, int:\n\tcase vi§Nope:\n\tcase nil, nil:\n\t}\n\tswitch e {\n\tcase 1:\n\tcase \"x\":\n\t}\n\tif e {\n\t}\n\tfor e {\n\t}\n\tselect {\n\tcase x := <-a:\n\t\t_ = x\n\tcase a <- 1:\n\t}\n}",
+	"type vi§R struct {\n\ta int\n\ta string\n\tb vi§Missing\n\tfunc()\n}\n\nfunc vi§r(r vi§R, p *vi§R, pp **vi§R) {\n\t_ = r.a + p.a + pp.a\n\t_ = (*r).a\n\t_ = *p.a\n\t_ = &r.b.c\n\tr.M()\n\tvi§R.M(r)\n\t(*vi§R).M(p)\n}",
+	"func vi§s(f func(int) int, g func() (int, int)) {\n\t_ = f()\n\t_ = f(1, 2)\n\t_ = f(g())\n\t_ = f(\"s\")\n\tx := g()\n\t_ = x\n\ta, b, c := g()\n\t_, _, _ = a, b, c\n\t_ = func(int, int) {}(g(), 1)\n\t_ = func(xs ...int) {}(1, []int{}...)\n}",
+	"func vi§t() {\n\tvar a [3]int\n\t_ = a[5]\n\t_ = a[-1]\n\t_ = a[1.5]\n\tvar s []int\n\t_ = s[len(a)]\n\t_ = s[len(s) : 1 : 0]\n\t_ = \"abc\"[10]\n\tvar m map[[]int]int\n\t_ = m[nil]\n\tvar c chan<- int\n\t_ = <-c\n}",
+}
+
+// tokenSpans returns the byte spans of identifier, literal and operator tokens.
+func tokenSpans(src string) [][2]int {
+	fset := token.NewFileSet()
+	tf := fset.AddFile("x.go", -1, len(src))
+	var sc scanner.Scanner
+	sc.Init(tf, []byte(src), nil, 0)
+	var out [][2]int
+	for {
+		pos, tok, lit := sc.Scan()
+		if tok == token.EOF {
+			break
+		}
+		if tok == token.SEMICOLON && lit == "\n" || tok == token.COMMENT {
+			continue
+		}
+		n := len(lit)
+		if n == 0 {
+			n = len(tok.String())
+		}
+		off := tf.Offset(pos)
+		if off+n <= len(src) {
+			out = append(out, [2]int{off, off + n})
+		}
+	}
+	return out
 }
 
 func indexesOfAny(s, chars string) []int {
@@ -260,8 +321,22 @@ var reCrashFrame = regexp.MustCompile(`(?m)^(?:\s*\|\s*)?(?:github\.com/go-criti
 
 // crashFrame returns the top-most go-critic frame of a crash trace (the call site that failed).
 func crashFrame(out string) string {
+	// the worker goroutine names the checker before it re-panics: "<checker>: error: <value>"
+	if m := reCheckerError.FindStringSubmatch(out); m != nil {
+		for _, in := range core.Embedded() {
+			if in.Name == m[1] {
+				// every rule-based checker fails inside the (third-party) rule engine
+				return "checkers.runRuleguardEngine"
+			}
+		}
+	}
 	if m := reCrashFrame.FindStringSubmatch(out); m != nil {
 		return m[1]
 	}
+	if m := reCheckerError.FindStringSubmatch(out); m != nil {
+		return "checker:" + m[1]
+	}
 	return "?"
 }
+
+var reCheckerError = regexp.MustCompile(`(?m)^(?:\s*\|\s*)?(\w+): error: `)
